@@ -166,13 +166,15 @@ def trace_bounded_instance():
         model = None
         for i in range(1, n_it + 1):
             if which.startswith('cacgmm'):
+                cn = {'covariance_norm': ['eigenvalue', 'trace', False][(inp['seed'] // 2) % 3]}       # every normalisation of the cACG matrices
                 if which == 'cacgmm-continued' and model is not None:
-                    model = CACGMMTrainer().fit(y, initialization=model, iterations=1, saliency=sal, weight_constant_axis=wca)
+                    model = CACGMMTrainer().fit(y, initialization=model, iterations=1, saliency=sal, weight_constant_axis=wca, **cn)
                 else:
-                    model = CACGMMTrainer().fit(y, initialization=init, iterations=i, saliency=sal, weight_constant_axis=wca)
+                    model = CACGMMTrainer().fit(y, initialization=init, iterations=i, saliency=sal, weight_constant_axis=wca, **cn)
                 lp = cacg_logpdf(z, model.cacg.covariance_eigenvectors, model.cacg.covariance_eigenvalues)
                 wgt = model.weight
-                guard_ok.append(bool(np.all(model.cacg.covariance_eigenvalues >= 1e4 * 1e-10)))
+                ev_ = np.asarray(model.cacg.covariance_eigenvalues)
+                guard_ok.append(bool(np.all(ev_ >= 1e4 * 1e-10 * ev_.max(-1, keepdims=True))))
                 own.append(float(model.log_likelihood(y)) if sal is None else None)
             elif which == 'cwmm':
                 model = CWMMTrainer().fit(y, initialization=init, iterations=i, saliency=sal, weight_constant_axis=wca)
